@@ -56,8 +56,11 @@ InstantClauses(o) ==
       r == o.out.a
   IN Cl("date_round_trip_ms", IsD(r[1], c, o.in.ms))
      \o Cl("serial_not_increasing", HasPos(r[2]) /\ HasPos(r[3]) /\ PosLt(PosOf(r[2]), PosOf(r[3])) /\ IsB(r[4], TRUE))
+     \o Cl("comparison_sees_serial", IsB(r[11], TRUE) /\ IsB(r[12], TRUE) /\ IsB(r[13], TRUE) /\ IsB(r[14], TRUE))
      \o (IF n >= FirstExcelDay
          THEN Cl("whole_part_of_serial", IsN(r[5], n))
+              \o Cl("comparison_sees_serial", IsB(r[6], TRUE) /\ IsB(r[7], o.in.ms = 0) /\ IsB(r[8], o.in.ms > 0)
+                                                /\ IsB(r[9], TRUE) /\ IsB(r[10], TRUE))
               \o Cl("fraction_of_serial", HasPos(r[2]) /\ OnGrid(r[2]) /\ PosOf(r[2]) = <<n, o.in.ms>>)
          ELSE <<>>)
 
